@@ -19,8 +19,8 @@ whose importers are the models of `Model/Transforms.lean` fed, per kernel call, 
 * `read_file_typed_eq_spec`, `read_csv_typed_eq_spec` — for every `chunk_row_size` of C05's `Regime`, any window boundaries and
   any number of regrowths: every destination field is `typedSpec kind (whole column of cell texts)`;
 * `typed_chunk_size_unobservable`, `typed_companions_aligned` — corollaries;
-* `read_csv_typed_raises` — when a cell is *not* acceptable to its importer (strict / allow_empty modes, impossible dates):
-  see the statement there.
+* `read_csv_typed_raises_partial` — when a cell is *not* acceptable to its importer (strict / allow_empty modes, impossible
+  dates): the importer-level half, and what exactly is raised; see the statement there.
 
 `KindOK` are C06's own assumptions on an importer definition (distinct category keys; the number parser rejects blank text
 and converts `str(invalid_value)` to `invalid_value`); `cellOK kind cell` says the importer does not raise on `cell`, decided
@@ -230,6 +230,36 @@ theorem typed_companions_aligned (k : FieldKind) (cells : List Csv.Bytes) (imp :
     have := Exetera.Props.C06.cellsMapE_length dateCell cells rs (toOption_eq_some hrs)
     exact ⟨by simp [Imp.lengths, this], fun _ h => by cases h⟩
 
+
+/- FULL STATEMENT (not proved at the level of the public entry point): `read_csv_typed_raises` — under the hypotheses of
+   `read_csv_typed_eq_spec` except that some selected column holds a cell its importer rejects (`¬ cellOK`),
+   `readCsv … = .error e` for every `chunk_row_size` of the regime, where `e` is the Python exception of a rejected cell
+   (`Exception` for bool, `ValueError` / `OverflowError` for int / float, `ValueError` for dates and datetimes).
+   What the code does: the importers run once per kernel call, in `index_map` order, on the block of cells of that call; the
+   FIRST kernel call whose block holds a rejected cell raises, and among the columns of that block the first one in
+   `index_map` order, and within the column the first rejected cell (`astypeAll` / `relaxedAll` / `cellsMapE` / `boolRows` stop
+   at it). So WHETHER the import raises does not depend on where the chunk boundaries fall (it raises iff some selected cell
+   is rejected: `read_csv_typed_eq_spec` gives the "if not"), but WHICH rejected cell is reported may: two rejected cells in
+   different columns, the earlier row in the later column, are reported in row order when a block boundary separates them and
+   in column order when one block holds both. What is proved instead is the importer-level half: -/
+/-- **read_csv_typed_raises_partial** (importer level). The importer of column `c`, in any state reached by consuming acceptable
+    cells `D`, on staging buffers whose column `c` holds a block `E` containing at least one cell that its validation mode
+    rejects: `import_part` returns an error — no out-of-bounds subscript is needed for that, nothing is appended — whatever
+    else `E` holds and wherever the block was cut; for a bool column the error is `Exception`. Missing for the full statement:
+    the lift through `read_file_using_fast_csv_reader`'s loop (the invariant `DI` with "no rejected cell among the records
+    consumed so far", ending in the first kernel call whose block holds one); the correspondence compares the error class of
+    the real import with the composed model on every `csv_typed` case with a rejected cell. -/
+theorem read_csv_typed_raises_partial (ncols : Nat) (kinds : Nat → FieldKind) (hkinds : ∀ c, c < ncols → KindOK (kinds c))
+    (offs : List Nat) (inds : List (List Nat)) (vals : List Nat) (maxrow c : Nat) (D E : List Csv.Bytes) (hc : c < ncols)
+    (hsh : Shape ncols maxrow offs inds vals) (hcol : ColOK offs inds vals c E)
+    (hcaps : offAt offs c + E.flatten.length < offAt offs (c + 1))
+    (hD : ∀ cell ∈ D, cellOK (kinds c) cell) (hE : ¬ ∀ cell ∈ E, cellOK (kinds c) cell) :
+    ∃ impD e, typedSpec (kinds c) D = some impD ∧ Imp.importPart impD inds vals offs c E.length = .error e ∧
+      (∀ mode invalid, kinds c = .bool mode invalid → e = .other "Exception") := by
+  obtain ⟨impD, hD'⟩ := typedSpec_isSome_of_cellOK (kinds c) D hD
+  obtain ⟨e, he, hb⟩ := typed_part_rejects ncols kinds hkinds offs inds vals maxrow c D E hc hsh hcol hcaps hD hE
+  simp only [typedF, hD', Option.getD_some] at he
+  exact ⟨impD, e, hD', he, hb⟩
 
 /-! ### non-vacuity: a file with a leaky categorical, an `int8` (allow_empty) and a date column, `chunk_row_size = 3` -/
 
